@@ -253,4 +253,102 @@ Section Block.
       rewrite Ha. reflexivity. }
     apply block_agree; [exact Hv|]. left. rewrite (flat_rel i d0 Hi). exact Hfl.
   Qed.
+
+  (* beyond baseline = autosomal centre, (1): a block of males only keeps the Y bin's own baseline a, one copy
+     below it -- a - 1 -- exactly as an X bin does under a male reference *)
+  Theorem sex_levels_y_males i d0 :
+    (forall s, In s files -> sample_is_xx sexes (s_id s) = false) ->
+    (i < length base)%nat -> chr_y_filter base build (nth i base d0) = true ->
+    exists c, center_shift median true skip build base = Some c /\
+    let a := b_log2 (nth i base d0) + c in
+    ((a == 0 \/ (eps_1e3 <= Qabs a /\ (2 <= length files)%nat)) ->
+     consensus_log2 (block_column hap build sexes skip files i) == a - 1 /\
+     consensus_spread_sq (block_column hap build sexes skip files i) == 0).
+  Proof.
+    intros Hmale Hi Hym.
+    destruct first_in_files as (f0 & Hf0 & _). destruct (Hlike f0 Hf0) as (d00 & Hl0).
+    destruct (centred_value f0 d00 i d0 Hf0 Hl0 Hi) as (c & Hc & _).
+    exists c. split; [exact Hc|]. intros a Hmaj.
+    assert (Hfl : flat_at hap build base (nth i base d0) == -1).
+    { unfold flat_at. rewrite Hym. destruct hap; [rewrite orb_true_r; reflexivity|].
+      unfold chr_y_filter in *. apply andb_true_iff in Hym. destruct Hym as (-> & _). reflexivity. }
+    assert (Hv : forall s, In s files -> sample_value hap build sexes skip bins i s == a - 1).
+    { intros s Hs. destruct (Hsexed s Hs) as (d & Hl & Hsx).
+      eapply Qeq_trans;
+        [apply (sample_value_spec hap build sexes skip bins i s d0);
+         [rewrite length_bins; exact Hi | rewrite length_bins; symmetry; eapply Forall2_length'; eauto]|].
+      destruct (filters_rel i d0 Hi) as (Ex & Ey & _). rewrite Ex, Ey, Hym.
+      rewrite <- (nth_expect_flat hap build bins i d0) by (rewrite length_bins; exact Hi).
+      rewrite (flat_rel i d0 Hi).
+      unfold shifted_value. rewrite (Hmale s Hs), orb_true_r.
+      destruct (centred_value s d i d0 Hs Hl Hi) as (c2 & Hc2 & E). rewrite Hc in Hc2. injection Hc2 as <-.
+      destruct (Forall2_nth _ _ _ i d0 d0 Hsx Hi) as (_ & Hraw). specialize (Hraw Hym (Hmale s Hs)).
+      rewrite E, Hraw, Hfl. unfold a. ring. }
+    apply block_agree; [exact Hv|]. rewrite (flat_rel i d0 Hi).
+    destruct Hmaj as [E|(E & Hk)]; [left|right; split; [|exact Hk]].
+    - rewrite Hfl, E. ring.
+    - setoid_replace (flat_at hap build base (nth i base d0) - (a - 1)) with (- a) by (rewrite Hfl; ring).
+      rewrite Qabs_opp. exact E.
+  Qed.
+
+  (* (2): a block of females only puts every Y bin at -1, whatever its baseline and whatever the files show there *)
+  Theorem sex_levels_y_females i d0 :
+    (forall s, In s files -> sample_is_xx sexes (s_id s) = true) ->
+    (i < length base)%nat -> chr_y_filter base build (nth i base d0) = true ->
+    consensus_log2 (block_column hap build sexes skip files i) == -1 /\
+    consensus_spread_sq (block_column hap build sexes skip files i) == 0.
+  Proof.
+    intros Hfem Hi Hym.
+    assert (Hfl : flat_at hap build base (nth i base d0) == -1).
+    { unfold flat_at. rewrite Hym. destruct hap; [rewrite orb_true_r; reflexivity|].
+      unfold chr_y_filter in *. apply andb_true_iff in Hym. destruct Hym as (-> & _). reflexivity. }
+    assert (Hv : forall s, In s files -> sample_value hap build sexes skip bins i s == -1).
+    { intros s Hs. destruct (Hlike s Hs) as (d & Hl).
+      eapply Qeq_trans;
+        [apply (sample_value_spec hap build sexes skip bins i s d0);
+         [rewrite length_bins; exact Hi | rewrite length_bins; symmetry; eapply Forall2_length'; eauto]|].
+      destruct (filters_rel i d0 Hi) as (Ex & Ey & _). rewrite Ex, Ey, Hym.
+      unfold shifted_value. rewrite (Hfem s Hs). reflexivity. }
+    apply block_agree; [exact Hv|]. left. rewrite (flat_rel i d0 Hi). exact Hfl.
+  Qed.
 End Block.
+
+(* (3) sharp: with both sexes in the block and a Y baseline off the autosomal centre the column is not constant.
+   Two males and one female, the Y bin's baseline 1/2 above the autosomes: the column is -1 (flat), -1 (female),
+   -1/2, -1/2 (males); its biweight location is the midpoint -3/4 -- neither -1 nor the males' 1/2 - 1 -- and its
+   spread is not 0.  Every other hypothesis of sex_levels_y holds. *)
+Definition ymix_bins (x y : Q) : list bin :=
+  [mkBin "chr1" 0 100 "A" 0 (Some 1) None; mkBin "chr2" 0 100 "B" 0 (Some 1) None;
+   mkBin "chrX" 0 100 "C" x (Some 1) None; mkBin "chrY" 0 100 "D" y (Some 1) None].
+Definition ymix_base : list bin := ymix_bins 0 (1 # 2).
+Definition ymix_files : list sample :=
+  [mkSample "m1" (ymix_bins (-1 # 1) (-1 # 2)) [1; 1; 1; 1]; mkSample "m2" (ymix_bins (-1 # 1) (-1 # 2)) [1; 1; 1; 1];
+   mkSample "f1" (ymix_bins 0 (-5 # 1)) [1; 1; 1; 1]].
+Definition ymix_sexes : list (string * bool) := [("m1"%string, false); ("m2"%string, false); ("f1"%string, true)].
+
+Lemma ymix_hypotheses :
+  ymix_files <> [] /\ existsb is_auto_bin ymix_base = true /\
+  (forall s, In s ymix_files -> forall b, In b (s_bins s) -> is_low b = false) /\
+  (forall b, In b ymix_base -> is_low b = false) /\
+  (forall s, In s ymix_files -> centred_like None ymix_base s 0 /\ sexed_like None ymix_sexes ymix_base s 0) /\
+  chr_y_filter ymix_base None (nth 3 ymix_base (mkBin "" 0 0 "" 0 None None)) = true /\
+  center_shift median true true None ymix_base = Some 0.
+Proof.
+  split; [discriminate|]. split; [reflexivity|]. split.
+  { intros s [<-|[<-|[<-|[]]]] b [<-|[<-|[<-|[<-|[]]]]]; reflexivity. }
+  split.
+  { intros b [<-|[<-|[<-|[<-|[]]]]]; reflexivity. }
+  split.
+  { intros s [<-|[<-|[<-|[]]]]; (split; [unfold centred_like|unfold sexed_like]);
+      repeat constructor; cbn; try reflexivity; try discriminate; intros; try discriminate; reflexivity. }
+  split; [reflexivity|]. vm_compute. reflexivity.
+Qed.
+
+Theorem sex_levels_y_mixed_refuted :
+  consensus_log2 (block_column false None ymix_sexes true ymix_files 3) == -3 # 4 /\
+  ~ consensus_log2 (block_column false None ymix_sexes true ymix_files 3) == -1 /\
+  ~ consensus_spread_sq (block_column false None ymix_sexes true ymix_files 3) == 0.
+Proof.
+  split; [vm_compute; reflexivity|].
+  split; intros H; vm_compute in H; discriminate.
+Qed.
